@@ -90,13 +90,7 @@ func (w *World) monitorInbound() {
 			}
 		}
 	}
-	if !lost {
-		for _, d := range w.deliveries {
-			if d.Err != nil && !d.Big && !strings.Contains(d.Class, "ErrClosed") && !strings.Contains(d.Class, "StoreErr") {
-				w.Violate("C06", "error-on-wellformed-stream", "ReadSlices returned %v on a well-formed stream whose pauses all saw progress", d.Err)
-			}
-		}
-	}
+	w.monitorUnexplainedErrors("C06")
 }
 
 // monitorAckTiming checks C07.
@@ -160,7 +154,7 @@ func (w *World) monitorAckTiming() {
 					if cur != nil && cur.id == id {
 						w.Violate("C07", "ack-before-ownership", "%s %#04x written at step %d while the application still holds the message returned at step %d", typeNames[b[0]>>4], id, e.Step, w.log[cur.since].Step)
 					}
-					if delivered[id] == 0 && !w.dupSuppressed(id, i) {
+					if delivered[id] == 0 {
 						w.Violate("C07", "ack-without-delivery", "%s %#04x written at step %d but that message was never returned by ReadSlices", typeNames[b[0]>>4], id, e.Step)
 					}
 				}
@@ -350,12 +344,14 @@ func init() {
 				{QoS: 0, Topic: "k/0", Body: []byte("third-q0")},
 				{QoS: 1, ID: 13, Topic: "k/3", Body: pay("bigq1", 80)},
 			},
-			Faults:  Faults{WriteCuts: cutsEdge, WriteErr: true, WriteTimeout: true, Cut: true, NoResponse: true},
+			Faults: Faults{WriteCuts: cutsEdge, WriteErr: true, WriteTimeout: true, Cut: true, NoResponse: true,
+				Store: map[string]bool{"load": true, "save": true}},
 			Horizon: 3000,
 			Final: func(w *World) {
 				w.monitorWire()
 				w.monitorAckTiming()
 				w.monitorQoS2In()
+				w.monitorUnexplainedErrors("C07")
 				w.monitorRequests()
 			},
 		}
@@ -383,6 +379,7 @@ func init() {
 				w.monitorWire()
 				w.monitorAckTiming()
 				w.monitorQoS2In()
+				w.monitorUnexplainedErrors("C04")
 			},
 		}
 	})
